@@ -71,7 +71,10 @@ Fixpoint type_ident_tail (ts : list tok) (acc : string) : string * list tok :=
   | _ => (acc, ts)
   end.
 
-Definition usize_of (z : Z) : option N := if (z <? 0)%Z then None else Some (Z.to_N z).
+(** [LitInt::base10_parse::<usize>] / [::<isize>]: out-of-range literals are parse errors *)
+Definition usize_of (z : Z) : option N :=
+  if (z <? 0)%Z || (18446744073709551615 <? z)%Z then None else Some (Z.to_N z).
+Definition isize_ok (z : Z) : bool := ((-9223372036854775808 <=? z) && (z <=? 9223372036854775807))%Z.
 
 Fixpoint parse_type (fuel : nat) (ts : list tok) : option (gtype * list tok) :=
   match fuel with
@@ -112,7 +115,7 @@ Fixpoint parse_type (fuel : nat) (ts : list tok) : option (gtype * list tok) :=
 Definition parse_expr (ts : list tok) : option (gexpr * list tok) :=
   match ts with
   | KId s :: r => if syn_ident s then Some (EIdent s, r) else None
-  | KInt z :: r => Some (EInt z, r)
+  | KInt z :: r => if isize_ok z then Some (EInt z, r) else None
   | KStr s :: r => Some (EStr s, r)
   | _ => None
   end.
@@ -200,11 +203,13 @@ Definition plain_name (s : string) : Prop :=
   s <> "unknown" /\ s <> "const" /\ s <> "mut".
 Fixpoint wf_type (t : gtype) : Prop :=
   match t with
-  | GConstPtr t' | GMutPtr t' | GArray t' _ => wf_type t'
+  | GArray t' n => wf_type t' /\ (n <= 18446744073709551615)%N
+  | GConstPtr t' | GMutPtr t' => wf_type t'
   | GIdent s => syn_ident s = true /\ s <> "unknown"
-  | GUnknown _ => True
+  | GUnknown n => (n <= 18446744073709551615)%N
   end.
-Definition wf_expr (e : gexpr) : Prop := match e with EIdent s => syn_ident s = true | _ => True end.
+Definition wf_expr (e : gexpr) : Prop :=
+  match e with EIdent s => syn_ident s = true | EInt z => isize_ok z = true | EStr _ => True end.
 Definition wf_attr (a : gattr) : Prop :=
   match a with
   | AIdent n => pyxis_ident n = true
